@@ -117,6 +117,9 @@ func qualifierOf(ex *exec.Exec, e impEntry) *smt.Term {
 
 // symIdent declares a symbolic identifier with the given length bound.
 func symIdent(ex *exec.Exec, name string, bound int) *smt.Term {
+	if t := concreteOf(ex, name); t != nil {
+		return t
+	}
 	v := ex.C.Var(name, smt.String)
 	ex.AssumeDomain(ex.C.InRe(v, exec.ReIdent))
 	ex.AssumeNoCheck(ex.C.Le(ex.C.Len(v), ex.C.IntC(int64(bound))))
@@ -147,4 +150,15 @@ func notKeyword(ex *exec.Exec, v *smt.Term) *smt.Term {
 		cs = append(cs, ex.C.Not(ex.C.Eq(v, ex.C.StrC(k))))
 	}
 	return ex.C.And(cs...)
+}
+
+// concreteOf: in a concretised re-run (a solver model executed with exact string semantics) the
+// symbolic inputs are replaced by the model's values.
+func concreteOf(ex *exec.Exec, name string) *smt.Term {
+	if m, ok := ex.User["concrete"].(map[string]string); ok {
+		if v, ok := m[name]; ok {
+			return ex.C.StrC(v)
+		}
+	}
+	return nil
 }
